@@ -259,13 +259,18 @@ type ReplicaOpts struct {
 }
 
 // ReplayAs executes a concrete history on a fresh replica with the given process history.
-func ReplayAs(h ConcreteHistory, o ReplicaOpts) []BlockTrace {
+func ReplayAs(h ConcreteHistory, o ReplicaOpts) (out []BlockTrace) {
+	if o.Flags.TimeZone != "" {
+		o2 := o
+		o2.Flags.TimeZone = ""
+		InTimeZone(o.Flags.TimeZone, func() { out = ReplayAs(h, o2) })
+		return out
+	}
 	gen, err := base64.StdEncoding.DecodeString(h.Genesis)
 	if err != nil {
 		panic(err)
 	}
 	c := NewChainFromGenesisWith(gen, h.InitialHeight, nsTime(h.GenesisTimeNs), o.Flags)
-	var out []BlockTrace
 	for i, b := range h.Blocks {
 		var txs [][]byte
 		for _, t64 := range b.Txs {
